@@ -1038,6 +1038,14 @@ pub fn run_c34(_p: &str, _tier: Tier, run_seed: u64, ov: &Value) -> RunOut {
                             let mut f = feats.clone();
                             if let Some(c) = node.state.context() {
                                 f.extend(crate::kit::planfeat::plan_features(&c, sql));
+                                // the same rewrite may fire only on the shards of a distributed answer
+                                for k in 2..=net.nodes.len().max(2) {
+                                    for x in super::runs::shard_plan_features(&c, sql, k) {
+                                        if !f.contains(&x) {
+                                            f.push(x);
+                                        }
+                                    }
+                                }
                             }
                             out.violations.push(viol("flight-equals-http", "rows-differ", f, format!("{sql}: {d}"), ctxj.clone()));
                         }
